@@ -460,6 +460,16 @@ impl SnfCalc {
 }
 //@if A
 /// what snf_in_place(a0, flags) returns: D = P a0 Q and two-sided inverses, for the transforms that were requested
+impl SnfResult {
+    /// the rank read off the result: the index of the first zero on the diagonal (all of min(rows, cols) if there is none)
+    pub fn rank(&self) -> (r: usize)
+        ensures r <= mat_nr(self.result.m@), r <= mat_nc(self.result.m@), forall|j: int| 0 <= j < r ==> #[trigger] dg(self.result.m@, j) != r0(),
+            r == (if mat_nr(self.result.m@) <= mat_nc(self.result.m@) { mat_nr(self.result.m@) } else { mat_nc(self.result.m@) }) || dg(self.result.m@, r as int) == r0(),
+    //@body impl/SnfResult/rank ring=1 index2=1 for_range=1 machine=n,i loops=1 subst=min:umin_
+    //@+ loop 0
+    //@| invariant __it0 <= __hi0, __hi0 == n, n == umin_spec(mat_nr(self.result.m@), mat_nc(self.result.m@)), forall|j: int| 0 <= j < __it0 ==> #[trigger] dg(self.result.m@, j) != r0(),
+}
+pub open spec fn umin_spec(a: int, b: int) -> int { if a <= b { a } else { b } }
 pub open spec fn snf_res_ok(r: SnfResult, a0: int) -> bool {
     (r.p.is_some() && r.q.is_some() ==> r.result.m@ == mmul(mmul(opt(r.p), a0), opt(r.q)))
     && (r.p.is_some() && r.pinv.is_some() ==> mmul(opt(r.p), opt(r.pinv)) == mid() && mmul(opt(r.pinv), opt(r.p)) == mid())
